@@ -2,11 +2,18 @@
 
 package ring
 
-import "rcproxy/verifrt"
+import (
+	bsPool "rcproxy/core/pkg/pool/byteslice"
+	"rcproxy/verifrt"
+)
 
 // VerifForge builds a ring buffer in an arbitrary state (used by the inductive-step harnesses).
+// The backing slice comes from the byte-slice pool, as every backing slice of a real ring does: its
+// length is the ring size and its capacity that of the pool's size class (8192 for a ring of 5120).
 func VerifForge(size, r, w int, isEmpty bool, contents []byte) *Buffer {
-	return &Buffer{bs: make([][]byte, 2), buf: contents, size: size, r: r, w: w, isEmpty: isEmpty}
+	buf := bsPool.Get(size)
+	copy(buf, contents)
+	return &Buffer{bs: make([][]byte, 2), buf: buf, size: size, r: r, w: w, isEmpty: isEmpty}
 }
 
 // VerifInv is the representation invariant the inductive step assumes and re-establishes.
